@@ -608,8 +608,8 @@ class Interp:
             return acc
         # callbacks from the interpreted program given to stdlib functions
         def conv(a):
-            if isinstance(a, (Closure, FuncRef)):
-                return lambda *xs: self._call_value(a, list(xs), {}, node)
+            if isinstance(a, (Closure, FuncRef, ClassRef, _Partial, _OpFn)):
+                return lambda *xs, **kw: self._call_value(a, list(xs), dict(kw), node)
             return a
         # "...{}...".format(x) / sep.join(xs) with library objects: str() is applied through the interpreted __str__
         owner = getattr(f, "__self__", None)
@@ -617,7 +617,7 @@ class Interp:
             args = [self.to_str(a, node) if isinstance(a, (Obj, Native)) else a for a in args]
             kwargs = {k: (self.to_str(v, node) if isinstance(v, (Obj, Native)) else v) for k, v in kwargs.items()}
         for a in list(args) + list(kwargs.values()):
-            if isinstance(a, (Obj, Native, ClassRef, Lazy)):
+            if isinstance(a, (Obj, Native, Lazy)):
                 if f in (tuple, list, set, frozenset, dict) or \
                         isinstance(getattr(f, "__self__", None), (list, dict, set, _collections_mod.deque)) or \
                         f is _collections_mod.deque or getattr(f, "__module__", None) == "itertools" or \
